@@ -305,7 +305,7 @@ func c18ReadSub() *engine.Sub {
 	}
 	return &engine.Sub{
 		Name: "readers",
-		Rule: "every streaming decoder on every matching artefact (2 sealed tokens, 2 DAG-JSON tokens, 10 containers): (1) chunk sizes {1,2,3,7,whole} x EOF {separate, with data}: result equals the buffered API's; (2) positional faults: an injected error after k delivered bytes for every k in [0,len] and an early EOF for every k in [0,len) must yield an error (a CAR cut exactly at a block boundary yields exactly the blocks before it); (3) E3: deviation-bounded DFS over per-Read answers {all, 1 byte, half, last-bytes-with-EOF, early EOF, error}: fault-free schedules agree with the buffered API, faulty ones return an error; non-trivial = executions with at least one deviation or fault",
+		Rule: "every streaming decoder on every matching artefact (2 sealed tokens, 2 DAG-JSON tokens, 10 containers): (1) chunk sizes {1,2,3,7,whole} x EOF {separate, with data}: result equals the buffered API's; (2) positional faults: an injected error after k delivered bytes for every k in [0,len] (returned alone, and returned together with the bytes up to k) and an early EOF for every k in [0,len) must yield an error (a CAR cut exactly at a block boundary yields exactly the blocks before it); (3) E3: deviation-bounded DFS over per-Read answers {all, 1 byte, half, last-bytes-with-EOF, early EOF, error, bytes-together-with-error}: fault-free schedules agree with the buffered API, faulty ones return an error; non-trivial = executions with at least one deviation or fault",
 		Bound: func(t string) string {
 			return fmt.Sprintf("E3 deviation bound %d (per artefact x API), all offsets for positional faults, 10 chunkings", tierN(t, 2, 3))
 		},
@@ -328,6 +328,9 @@ func c18ReadSub() *engine.Sub {
 						return
 					}
 					if !emit(&c18ReadCase{Art: a.Name, API: api.Name, Mode: "pos-eof", At: -1}) {
+						return
+					}
+					if !emit(&c18ReadCase{Art: a.Name, API: api.Name, Mode: "pos-error-with-data", At: -1}) {
 						return
 					}
 					if !emit(&c18ReadCase{Art: a.Name, API: api.Name, Mode: "env"}) {
@@ -372,7 +375,7 @@ func c18ReadSub() *engine.Sub {
 				} else {
 					ctx.Outcome("stream-equals-buffered")
 				}
-			case "pos-error", "pos-eof":
+			case "pos-error", "pos-eof", "pos-error-with-data":
 				lo, hi := 0, len(a.Data)
 				if cs.Mode == "pos-eof" {
 					hi = len(a.Data) - 1
@@ -393,7 +396,7 @@ func c18ReadSub() *engine.Sub {
 							ctx.Outcome("fault-reported")
 							continue
 						}
-						if !pr.Hit && mode == "error" {
+						if !pr.Hit && mode != "eof" {
 							// the decoder never read far enough to see the fault: the stream it saw was complete
 							ctx.Outcome("fault-not-reached")
 							if got != want {
@@ -411,7 +414,7 @@ func c18ReadSub() *engine.Sub {
 							}
 						}
 						ctx.Outcome("fault-swallowed")
-						ctx.Failf(rc, "fault-swallowed/"+mode+"/"+tag, "%s on %s returns a result although the stream %s after %d of %d bytes", api.Name, a.Name, map[string]string{"error": "failed", "eof": "ended"}[mode], k, len(a.Data))
+						ctx.Failf(rc, "fault-swallowed/"+mode+"/"+tag, "%s on %s returns a result although the stream %s after %d of %d bytes", api.Name, a.Name, map[string]string{"error": "failed", "eof": "ended", "error-with-data": "failed (error returned together with the last bytes)"}[mode], k, len(a.Data))
 					}
 				}
 			case "env":
